@@ -19,7 +19,7 @@ DIMS = [
  ("tail", ["none", "def test_x(", "def test_x(a,", "def test_x(a, <newline>", "def test_x():", "def test_x()", "fixture def fix(", "session fixture def fix(a, ",
            "async def test_x(", "usefixtures( unclosed", 'usefixtures("a", ', "pytestmark = [usefixtures(", "def helper(", "def test_x (unjudged)"]),
  ("location", ["root", "subdirectory"]),
- ("edited_name_collides", ["no", "edited fixture has the name of a conftest fixture"]),
+ ("edited_name_collides", ["no", "edited fixture has the name of a conftest fixture", "edited fixture is named like a test (test_edited)"]),
  ("trailer", ["none", "multi-line module-level call after the test", "multi-line module-level list after the test", "multi-line call between the functions"]),
 ]
 
@@ -51,7 +51,7 @@ def build(a):
     kw = "async def" if a["async"] else "def"
     # ---- the fixture being edited
     scope = SCOPES[a["fx_scope"]]
-    fname = "c_module" if a["edited_name_collides"] else "edited_fx"
+    fname = ["edited_fx", "c_module", "test_edited"][a["edited_name_collides"]]
     declared = {0: [], 1: ["c_function"], 2: ["c_session", "l_one"], 3: ["c_session=None"], 4: ["*", "c_session=None"]}[a["declared"]]
     # names taken in the signature (what completion must not offer again)
     taken = [p.split("=")[0] for p in declared if p != "*"]
@@ -160,4 +160,4 @@ if __name__ == "__main__":
             for e in exp[:-ntail]:
                 if e["cls"] != "none": e["cls"] = "unjudged"
         emit({"id": i, "dims": dims, "source": src, "expected": {"valid": valid, "location": a["location"], "lines": exp,
-              "local_fixtures": [["l_one", "function"], ["shadow", "function"], [("c_module" if a["edited_name_collides"] else "edited_fx"), SCOPES[a["fx_scope"]]]]}})
+              "local_fixtures": [["l_one", "function"], ["shadow", "function"], [["edited_fx", "c_module", "test_edited"][a["edited_name_collides"]], SCOPES[a["fx_scope"]]]]}})
